@@ -981,6 +981,21 @@ class C17(Engine):
                                        'text': 'compiler process died'}}
                 result.stats['compiler-process-died-of-signal'] += 1
 
+            if outcome['status'] == 'timeout' and not tainted and not (
+                    fault is not None and fault.get('mode') in ('ERR',
+                                                                'SHORT')):
+                # The driver killed a compiler process that did not come
+                # back within 45 s of wall-clock time.  On a loaded machine
+                # that can be a slow process, not a hung one: the call is
+                # made again (after what is now one more kill) with a far
+                # longer limit, and only that one is judged.
+                kills += 1
+                result.stats['compiler-process-slow-retried'] += 1
+                history.append([name, None, fault, 'killed-by-driver-45s'])
+                outcome = fsfault.run_child(in_child, cache, fault=fault,
+                                            urandom_seed=urandom_seed,
+                                            wall_timeout=900)
+
             if outcome['status'] == 'timeout':
                 # Not an error, not a codec: the process had to be killed
                 # by the driver.  Outside what the statement promises when
